@@ -569,6 +569,26 @@ CHECKS["C16"] = {
     "assumptions": COMMON_ASSUMPTIONS,
 }
 
+CHECKS["C17"] = {
+    "sub": "c17",
+    "level": "exploration",
+    "technique": "runtime monitoring: bridge output vs an independent reference serde Serializer + reference encoder; round-trip, re-framing and unknown-field replay",
+    "rule": "values of ~50 serde types spanning every Serializer/Deserializer method and every enum representation (external, internal, adjacent, untagged, flatten), from boundary-dense generators; each value is serialised by the bridge and by RefSerializer (bytes must be equal), deserialised back (reference item of the result must be equal, decoder at the end), re-framed with wider heads (same value required) and indefinite containers (same value or error), and with unknown extra fields (arbitrary items) inserted into every struct map (same value required); distinct = hash of (type, bytes)",
+    "level_text": "The documented representation is made executable as an independent serde Serializer that builds reference items; byte equality with the reference encoder decides representation and well-formedness at once, and comparison of reference items decides round-trip equality bit-exactly (floats included). Exploration over generated values of a type family that reaches every bridge method is the right level.",
+    "level_note": "Trusted: harness/vmain/src/refser.rs (written from the bridge documentation), refcbor. Seven shapes that cannot round-trip through serde's content buffering are listed as open known findings (one signature per shape).",
+    "assumptions": COMMON_ASSUMPTIONS + ["std types with deny-unknown-fields Deserialize impls (Duration, Range) get no unknown fields inserted"],
+}
+
+CHECKS["C18"] = {
+    "sub": "c18",
+    "level": "exploration",
+    "technique": "runtime monitoring, differential: minicbor::to_vec/decode vs minicbor_serde::to_vec/from_slice on the shared data model",
+    "rule": "values of ~55 types implementing both trait families (integers, bool, char, floats, String, unit, Option, Vec/VecDeque/BTreeSet, arrays to 32, tuples to 12, BTreeMap, Box, Wrapping, NonZero, nested) from the boundary-dense generators: both encoders must give identical bytes, both decoders the original value; then three re-framings of the item (wider heads, indefinite containers, both): a side may reject but neither may return a different value; distinct = hash of (type, bytes)",
+    "level_text": "Each side is the other's oracle on every generated value and re-framing; disagreement on bytes or value is directly observable. Exploration is the right level for a differential property over unbounded value spaces.",
+    "level_note": "Trusted: the Subject equality (floats bitwise). Outcome classes for re-framings (both accept / one rejects / both reject) are reported as evidence, only 'different value' is a violation.",
+    "assumptions": COMMON_ASSUMPTIONS,
+}
+
 
 def write_manifest():
     ids = [json.loads(l)["id"] for l in open(os.path.join(ROOT, "properties.jsonl"))]
